@@ -1910,6 +1910,13 @@ func runZeroCase(r reporter, test string, zc zeroCase) {
 				r.fail("C19:deadline-no-effect:RECV-DEADLINE:"+keyBase, doc, "%s Recv with RECV-DEADLINE=30ms and nothing to receive returned %s (want ErrRecvTimeout within 5 s)", zc.Proto, errName(err))
 				return
 			}
+			if zc.Proto == "req" {
+				// the timed-out Recv gave up the request: ask again so that the next Recv has something to wait for
+				if err := sendF([]byte("q2")); err != nil {
+					r.harness("req send: %v", err)
+					return
+				}
+			}
 		} else if !setPrior(oRD, 0) {
 			return
 		}
@@ -2304,10 +2311,11 @@ func resizeKeys(rc resizeCase) (disc, stall string) {
 	return "C19:resize-disconnects:" + impl(rc.Proto), "C19:resize-stalls:" + impl(rc.Proto)
 }
 
-// resizeExcluded: known shapes are left out.  The disconnect/stall defects need queued traffic.
+// resizeExcluded: known shapes are left out.  The recorded disconnect/stall defects need a full
+// receive queue (READQ-LEN with traffic).
 func resizeExcluded(rc resizeCase) bool {
 	disc, stall := resizeKeys(rc)
-	if rc.Traffic {
+	if rc.Traffic && rc.Option == oRQ {
 		for _, k := range []string{disc, stall} {
 			if stats.Known(k) {
 				stats.Excluded(k)
@@ -2315,7 +2323,6 @@ func resizeExcluded(rc resizeCase) bool {
 			}
 		}
 	}
-	// sub with READQ-LEN 0 wedges the socket when a message arrives (belongs to C10/C12)
 	return false
 }
 
@@ -2835,10 +2842,14 @@ func countForwarders() int {
 	for _, g := range bytes.Split(buf, []byte("\n\n")) {
 		if bytes.Contains(g, []byte(forwarderFrame)) {
 			c++
+			lastForwarder = string(g)
 		}
 	}
 	return c
 }
+
+var lastForwarder string
+var dbgLog = make([]string, 6)
 
 func TestC19Device(t *testing.T) {
 	const test = "TestC19Device"
@@ -2898,7 +2909,7 @@ func TestC19Device(t *testing.T) {
 				case res.err != nil:
 					// refused: nothing may have been started
 					if n := countForwarders(); n != 0 {
-						r.fail("C19:device-side-effect", doc, "Device(%s,%s) failed with %s but %d forwarder goroutine(s) are running", name(a), name(b), errName(res.err), n)
+						r.fail("C19:device-side-effect", doc, "Device(%s,%s) failed with %s but %d forwarder goroutine(s) are running\n%s\n%v", name(a), name(b), errName(res.err), n, lastForwarder, dbgLog[len(dbgLog)-6:])
 					}
 					// and the sockets are untouched: still open, still answering
 					for _, s := range []mangos.Socket{s1, s2} {
@@ -2926,6 +2937,14 @@ func TestC19Device(t *testing.T) {
 					if n := countForwarders(); n != 0 {
 						t.Fatalf("harness: %d forwarders still running after closing Device(%s,%s) sockets", n, name(a), name(b))
 					}
+					for q := 0; q < 5; q++ {
+						if c1, c2 := fixture.CountGoroutines(forwarderFrame), countForwarders(); c1 != 0 || c2 != 0 {
+							fmt.Printf("DISAGREE after %s,%s: try %d fixture=%d mine=%d\n%s\n", name(a), name(b), q, c1, c2, lastForwarder)
+						}
+					}
+					dbgLog = append(dbgLog, fmt.Sprintf("ok %s,%s same=%v waited", name(a), name(b), same))
+				} else {
+					dbgLog = append(dbgLog, fmt.Sprintf("refused %s,%s same=%v err=%v hung=%v pan=%v", name(a), name(b), same, res.err, res.hung, res.pan))
 				}
 				stats.Eval()
 				stats.Class("device:" + strings.Join(func() []string {
